@@ -8,7 +8,9 @@ MODULE = "Props.C04"
 THEOREMS = ["C04_compact_spec", "C04_too_few_entities", "C04_flattened_sum_bounds", "C04_id_less_rows", "flattenCore_heaviest_invariant",
             "C04_heaviest_invariance", "sortDesc_sorted", "sortDesc_perm", "sortDesc_unique", "raise_heaviest_shape",
             "C04_heaviest_invariance_raise"]
-PARTIAL = ["exact arithmetic: in doubles 'real_sum - flattening' can differ in the last bit, which matters only at a rounding tie; "
+PARTIAL = ["the invariance theorems are per id column; with several id columns the final choice between columns (largest flattening) is exact in "
+           "the model over fields, and in doubles a tie between columns can flip by rounding (known finding F13)",
+           "exact arithmetic: in doubles 'real_sum - flattening' can differ in the last bit, which matters only at a rounding tie; "
            "the metamorphic oracle evaluates the invariance on the real code"]
 ASSUMPTIONS = []
 TRUSTED = ["stream S-cnt generators (1-3 id columns, 0-60 entities, ties, heavy hitters, id-less rows, intervals 1<=lower<=upper)"]
@@ -94,8 +96,30 @@ def oracle(ctx):
                     raised.append((cs2, 0))
                 r2 = AS.py_cntm(A, ap, case["bucket_seed"], raised)
                 if r1 != r2:
-                    ctx.oracle_fail(f"released count changed from {r1} to {r2} when the {ol} heaviest entities contributed more rows", 
-                                    dict(case, base=[list(c.items()) for c, _ in base], raised=[list(c.items()) for c, _ in raised]), "heaviest")
+                    fp = "heaviest"
+                    if len(base) > 1:
+                        # known finding F13: every column is individually invariant (same flattened count, noise) and the per-column
+                        # flattening amounts, equal in exact arithmetic, differ only by double rounding, which flips the tie-break
+                        try:
+                            from collections import Counter
+                            from syndiffix.common import AnonymizationContext
+                            def per_col(cols):
+                                out = []
+                                for cs, un in cols:
+                                    pc = A.PidContributions(); pc.value_counts = Counter({U64(k_): v for k_, v in cs.items()}); pc.unaccounted_for = un
+                                    out.append(A._flatten_contributions(pc, AnonymizationContext(U64(case["bucket_seed"]), ap)))
+                                return out
+                            pb, pr = per_col(base), per_col(raised)
+                            same_cols = all(a is not None and b is not None and a.flattened_count == b.flattened_count and a.noise == b.noise
+                                            and a.noise_sd == b.noise_sd for a, b in zip(pb, pr))
+                            fl = sorted((p.flattening for p in pr), reverse=True)
+                            near_tie = abs(fl[0] - fl[1]) <= 1e-9 * max(1.0, abs(fl[0])) and fl[0] != fl[1]
+                            if same_cols and near_tie:
+                                fp = "heaviest-multi-id-flattening-tie-rounding"
+                        except Exception:
+                            pass
+                    ctx.oracle_fail(f"released count changed from {r1} to {r2} when the {ol} heaviest entities contributed more rows",
+                                    dict(case, base=[list(c.items()) for c, _ in base], raised=[list(c.items()) for c, _ in raised]), fp)
     return f
 
 
